@@ -32,8 +32,8 @@ var (
 	vsPayloads = []string{"aa", "bb", "cc", "aab", "x5y", "dd", "zz", "aabb", "", "x7y"}
 	// datagrams of a fat flow: its stream does not fit into the pipe to a converter process
 	vsFatPayloads = []string{"x7y" + strings.Repeat("k", 1397), "aab" + strings.Repeat("k", 1397), strings.Repeat("k", 1398) + "bb"}
-	vsTagNames = []string{"tag/a", "tag/b", "tag/c", "tag/d", "service/s", "mark/m"}
-	vsPlain    = []string{
+	vsTagNames    = []string{"tag/a", "tag/b", "tag/c", "tag/d", "service/s", "mark/m"}
+	vsPlain       = []string{
 		"cport:1000", "cport:1001:1003", "sport:80", "sport:443", "cbytes:4:", "sbytes:1:", "bytes:6:", "chost:10.0.0.1", "shost:10.0.0.2/31",
 		"protocol:udp", "protocol:tcp", `ftime:"2024-01-02 130010:"`, `ltime:":2024-01-02 130030"`, `time:"2024-01-02 130005:2024-01-02 130020"`,
 		"cbytes:@sbytes@:", "ltime:@ftime@+5s:",
